@@ -12,7 +12,7 @@ RULE = ('every command on inputs biased towards what map order could expose: >= 
         'non-trivial = >= 3 entries at a ranged map or >= 2 tied sort keys; distinct by input hash')
 ASSUMPTIONS = ["Go's actual map randomisation is sampled by repetition; the theorem covers every visiting order of the model"]
 
-CMDS = [(['reg'], (), {}), (['reg'], (), {'oldReg': True}), (['reg'], (), {'singleElement': 'calories', 'groupFood': True}),
+CMDS = [(['reg'], (), {}), (['reg'], (), {'oldReg': True}), (['reg'], (), {'singleElement': 'calories', 'groupFood': True}), (['reg'], (), {'singleElement': 'calories', 'csv': True}),
         (['bal'], (), {}), (['bal'], (), {'collapse': True}), (['bal'], (), {'singleElement': 'calories'}),
         (['report', 'totals'], (), {}), (['report', 'unresolved'], (), {}), (['report', 'quantity'], (), {}), (['report', 'quantity'], (), {'desc': True}),
         (['report', 'element-total'], ('calories',), {}), (['report', 'element-total'], ('calories',), {'desc': True}),
